@@ -62,12 +62,15 @@ TERM_TRUST = COMMON_TRUST + [
     "reachable-state fact used: OriginMode::WithinMargins is never selected by any emulation (the DECOM arm is commented out in ansi/mod.rs)",
 ]
 TERM_REMAINDER = [
-    "ansi::Parser::print_char dispatch skeleton and its arms (unit ansi_cmds covers the command methods listed under functions_under_contract); DCS / OSC / macro / font-selection sub-languages; sixel decode threads",
-    "emulations other than those listed under functions_under_contract",
+    "ansi::Parser::print_char (the ANSI/VT dispatcher, its arms, DCS / OSC / macro / font-selection / ANSI-music sub-languages, sixel decode threads): "
+    "emulations that fall through to it (Avatar, PCBoard, Ctrl-A, Renegade) use the trait contract of BufferParser::print_char as an ASSUMED contract of the stand-in type AnsiParser",
+    "the byte-stream restriction is_byte(c): the proof covers characters U+0000..U+00FF, i.e. byte streams as in the property statement",
 ]
 
+EMU_UNITS = ["emu_ascii", "emu_atascii", "emu_avatar", "emu_viewdata", "emu_mode7", "emu_ctrla", "emu_pcboard", "emu_renegade", "emu_petscii"]
 PROPS["C01"] = dict(
-    units=["term_core"],
+    units=["term_core"] + EMU_UNITS,
+    kani_quick=["c01_ctrla_table_len", "c01_parse_next_number_nonneg", "std_spec_char_range_contains"],
     trusted_base=TERM_TRUST, unverified_remainder=TERM_REMAINDER,
     explanation="Every screen operation the emulations are built from (Line, Layer, TerminalState, Buffer geometry, the Caret "
                 "movements and Buffer::print_char / scroll / clear / insert / delete) is proved panic-free (index, overflow, "
@@ -75,7 +78,7 @@ PROPS["C01"] = dict(
                 "(term_step) with a bounded growth per character.",
 )
 PROPS["C09"] = dict(
-    units=["term_core"],
+    units=["term_core"] + EMU_UNITS,
     trusted_base=TERM_TRUST, unverified_remainder=TERM_REMAINDER + ["Viewdata / Mode 7 fixed-grid frame conditions (unit small_emus)"],
     explanation="caret_in_view (column in 0..width, row within the last `height` rows) is a postcondition of every clamping "
                 "operation (limit_caret_pos and everything that ends in it, clear_screen, ff) and is preserved by the relative "
